@@ -39,6 +39,23 @@ claim("C09", "E3 pratt",
       "All operator tables with <= 2 operators (4 kinds x symbols x powers) and a sample of larger ones x all token strings up to the bound, in Vec, boxed-tuple and plain-tuple table representations: the parenthesised tree, the unconsumed remainder and the flattening are compared with a 40-line textbook precedence-climbing reference.",
       "Trusted: the textbook reference in harness/src/prattk.rs with the power mapping pinned as P4 (left(x)=(2x,2x+1), right(x)=(2x+1,2x)).", "DESIGN §5 C09")
 
+claim("C05", "E1 model",
+      "runtime monitoring: reference-model monitor over the ordered list of reported non-fatal errors, inspector state and probe observations, for emitters/recoveries placed on abandoned and kept paths",
+      "Grammars with validate emitters and recover_with nodes at arbitrary positions (exhaustive small, 20 abandoning/keeping context shapes around every emitter subtree, random larger) x all small inputs, in parse and check mode: the reported error list of every parse that has an output must be exactly the emissions of the surviving path of the reference evaluation, in order; final inspector state and the state seen at every zero-width probe must equal the fold of the consumed tokens.",
+      MODEL_NOTE + " A3: emissions of and_is' second parser may or may not appear.", "DESIGN §5 C05")
+claim("C06", "E1 model + E2 differential",
+      "runtime monitoring: reference-model monitor of the last reported error of every rejected input (position, span, expected set, user error, found) + cross-error-type differential (Rich/Simple/Cheap/EmptyErr) between real executions",
+      "Every grammar of the C01/C02 class without not() up to a node bound x all small inputs (+ sheltering sweep + random multi-byte): the last reported error is judged (a) against the input alone, (b) against the furthest failure position of the reference evaluation, (c) on the merged expected set / preserved user error, (d) across the four error types.",
+      MODEL_NOTE + " Known finding D3 (found of a filter rejection) is reported as KNOWN-FINDING by signature.", "DESIGN §5 C06")
+claim("C08", "E1 model",
+      "runtime monitoring: reference-model monitor over executions of recover_with (all four strategies, nested, after deeper failures, in repetitions), valid and invalid inputs",
+      "Grammars with 1..2 recovery nodes (exhaustive small), shaped placements of every strategy, bracket languages for nested_delimiters and random larger grammars x all small inputs, parse and check: transparent where p succeeds; exactly one extra error equal to the model's pending primary error on recovery; same error and no consumption on double failure; minimal skip count; retry-after-each-skip; one balanced region (independent bracket matcher); no fallback marker in error-free results.",
+      MODEL_NOTE + " P1/P3 pins, A9 leniency.", "DESIGN §5 C08")
+claim("C17", "E2 differential + E1 model",
+      "runtime monitoring: differential monitor between real executions (decorated vs undecorated grammar, every subset of nodes) + reference-model monitor of the label/context/map_err content of reported errors",
+      "labelled / labelled.as_context / span-preserving map_err inserted at every subset of nodes of every small grammar (and sampled subsets of shaped and random ones) x all small inputs: acceptance, outputs, number of errors and every span must equal the undecorated run's; the decorated run's errors must carry the label in place of expectations at the first token, inner expectations + context further in, and the map_err mark on exactly its parser's failures.",
+      MODEL_NOTE + " Known finding D14 (decoration around a recover_with shelters the outer pending error) is reported as KNOWN-FINDING by signature.", "DESIGN §5 C17")
+
 NOT_CLAIMED = {}
 
 
